@@ -1,6 +1,8 @@
-(* C12 - GAP maintenance polls exactly the own GAP (station-local, one-step part).
-   Theorem statements only; every proof is `exact <lemma of Proofs/FdlProofs.v>`.
-   Planned on top of the same model (DESIGN 4, not yet proved): C12_one_per_visit, C12_sweep_bound, C12_found_becomes_successor, C12_status_reply_truth. *)
+(* C12 - GAP maintenance polls exactly the own GAP and status replies are truthful.
+   Theorem statements only; every proof is `exact <lemma>`.  First the function-level theorems (Proofs/FdlProofs.v,
+   Proofs/FdlStepProofs.v), then - second half of the file - the whole-poll, history and timing theorems of DESIGN 4
+   (Proofs/C12Proofs.v): C12_poll_transmissions, C12_poll_in_gap, C12_one_per_visit, C12_sweep_bound,
+   C12_found_becomes_successor, C12_status_reply_truth, C12_status_reply_in_slot and their companions. *)
 From PB Require Import Common Fdl FdlProofs FdlStepProofs.
 
 (* The next GAP address is always strictly between TS and NS (cyclically) - in particular never the
